@@ -91,3 +91,11 @@ chk("C39", "E1", "fault_enumeration",
     "deterministic simulation with exhaustive crash-point enumeration: every prefix of the logged disk writes/syncs of a publish workload is turned into a crash image (unsynced writes kept/dropped/torn by PRNG) and reopened through redb recovery; plus eviction on virtual + simulated wall clock with clock steps",
     "Per seeded run the live store (real actor, real redb over SimDisk) logs every disk operation; afterwards a crash is simulated after EVERY prefix of the log and both tables of the recovered database are checked: every stored packet is byte-identical to a published one, at least as recent as the newest whose batch commit preceded the crash, and the expiry index equals {(timestamp, key)} of the stored packets. Eviction runs check every removal against the cut-off at removal time and that expired packets are gone after a settle. Exhaustive over crash points per run; runs sampled.",
     "Non-lying disk (sync persists). Torn writes at 512-byte sector granularity. The store's OS threads are replaced by local tasks (wiring of open() duplicated in verif_open).")
+chk("C21", "E1", "exploration",
+    "deterministic simulation: real RemoteMap + RemoteStateActors on a virtual clock with advances landing around the 60 s idle expiry, emulated cleanup branch, scripted lookup services; event-log oracle (start/stop/handle hooks)",
+    "Seeded exploration of resolve requests for two remotes interleaved with idle expiry, actor shutdown, leftover-message hand-off, cleanup and restart; oracle: every request's reply channel is answered (never dropped), each request is handled exactly once and in issue order per remote, and at most one actor instance per remote is live at any point of the event log.",
+    "Connection registration (AddConnection) needs a live QUIC connection and is only reached by the endpoint-level checks.")
+chk("C22", "E1", "exploration",
+    "deterministic simulation: same harness as C21; per actor instance the oracle derives when a path became known and when lookups finished and checks each answer's kind and virtual-time instant",
+    "Seeded exploration with lookup services that decline, succeed (with/without addresses, wrong endpoint), fail or are slow; oracle: Ok only when and as soon as a path is known (immediately if already known), Err only after a lookup finished with no path known, never Err while a path is known or a lookup is still running.",
+    "The path-set-never-empties clause under pruning is a pure-function property (C23, n/a) and not re-checked here.")
